@@ -197,8 +197,12 @@ pub fn run(ctx: &Ctx, rep: &mut Report) {
         }
         let sep = [" ", "  ", " "][r.usize(3)];
         let mut p = kw.word.to_string();
-        for a in &args {
-            p.push_str(sep);
+        // one case in eight: a separator is missing (words glued, also between two quoted arguments)
+        let glue_at = if r.chance(1, 8) && !args.is_empty() { r.usize(args.len()) } else { usize::MAX };
+        for (ai, a) in args.iter().enumerate() {
+            if ai != glue_at {
+                p.push_str(sep);
+            }
             p.push_str(a);
         }
         let text = in_context(&p, r.below(7));
@@ -253,6 +257,20 @@ pub fn run(ctx: &Ctx, rep: &mut Report) {
         let text = crate::corpus::input(ctx.seed, "charsweep", i);
         let kw = text.split(' ').next().unwrap_or("").to_string();
         run_case(&text, &kw, &format!("charsweep:{}", i), true, rep);
+    });
+    // two-argument keywords: every quoting combination of the two arguments, with and without the blank
+    par_cases(ctx, "pairs", 2 * 3 * 3 * 2 * 7, rep, |i, rep| {
+        let kw = ["-xattr-match", "-fprintf"][(i % 2) as usize];
+        let q = |s: &str, k: u64| match k {
+            0 => s.to_string(),
+            1 => format!("'{}'", s),
+            _ => format!("\"{}\"", s),
+        };
+        let a = q("ab", (i / 2) % 3);
+        let b = q(if kw == "-fprintf" { "%p" } else { "cd" }, (i / 6) % 3);
+        let sep = if (i / 18) % 2 == 0 { " " } else { "" };
+        let text = in_context(&format!("{} {}{}{}", kw, a, sep, b), i / 36);
+        run_case(&text, kw, &format!("pairs:{}", i), true, rep);
     });
     // keyword alone with its argument(s) missing
     par_cases(ctx, "missing", nkw * 7, rep, |i, rep| {
